@@ -31,7 +31,7 @@ DATA: t.List[t.Tuple[str, str]] = [      # (kind, expression)
     ('complex', 'complex(1, 2)'), ('complex', 'complex(2, 0)'), ('complex', 'complex(1, 0)'),
     ('str', "'abc'"), ('str', "'12'"), ('str', "'1.5'"), ('str', "'true'"), ('str', "'2023-09-05'"), ('str', "''"),
     ('str', "'ab'"), ('str', "SubStr('xy')"), ('str', "'a'"),
-    ('bytes', "b'ab'"), ('bytes', "b'12'"), ('bytes', "bytearray(b'ab')"), ('bytes', "b''"),
+    ('bytes', "b'ab'"), ('bytes', "b'12'"), ('bytes', "bytearray(b'ab')"), ('bytes', "b''"), ('bytes', "b'a'"), ('bytes', "bytearray(b'a')"),
     ('seq', '[1, 2]'), ('seq', '(1, 2)'), ('seq', '[]'), ('seq', "['a', 'b']"), ('seq', "[['a', 1]]"), ('seq', "[('k', 1)]"),
     ('seq', '[1]'), ('seq', "('a', 'b')"),
     ('map', "{'a': 1}"), ('map', '{}'), ('map', "{'k': 1}"), ('map', "{0: 'a', 1: 'b'}"), ('map', "{'a': 'x', 'b': 'y'}"),
